@@ -302,6 +302,8 @@ func runC19(tier string) int {
 			"runs_with_permuted_range_2plus_keys": permuted2,
 			"runs_with_permuted_range_3plus_keys": permuted3,
 			"map_range_sites":                     sites,
+			"scheduler_seam":                      schedEvidence(tw),
+			"logical_time":                        stepEvidence(),
 			"distinct_behaviours":                 len(distinctBehaviours),
 			"hangs":                               hangs,
 			"runs_per_hour":                       perHour(runs, wall),
